@@ -866,20 +866,13 @@ static void cfg_init_defaults(cfg_t *cfg)
 	}
 }
 
-DLLIMPORT cfg_value_t *cfg_setopt(cfg_t *cfg, cfg_opt_t *opt, const char *value)
+/* Find or create the value slot that a call of cfg_setopt() stores into.
+ * Called only after the new value has been converted successfully, so
+ * that a rejected value leaves the option exactly as it was.
+ */
+static cfg_value_t *cfg_setopt_slot(cfg_t *cfg, cfg_opt_t *opt, const char *value)
 {
 	cfg_value_t *val = NULL;
-	int b;
-	const char *s;
-	double f;
-	long int i;
-	void *p;
-	char *endptr;
-
-	if (!cfg || !opt) {
-		errno = EINVAL;
-		return NULL;
-	}
 
 	if (opt->simple_value.ptr) {
 		if (opt->type == CFGT_SEC) {
@@ -938,6 +931,24 @@ DLLIMPORT cfg_value_t *cfg_setopt(cfg_t *cfg, cfg_opt_t *opt, const char *value)
 		}
 	}
 
+	return val;
+}
+
+DLLIMPORT cfg_value_t *cfg_setopt(cfg_t *cfg, cfg_opt_t *opt, const char *value)
+{
+	cfg_value_t *val = NULL;
+	int b;
+	const char *s;
+	double f;
+	long int i;
+	void *p;
+	char *endptr;
+
+	if (!cfg || !opt) {
+		errno = EINVAL;
+		return NULL;
+	}
+
 	switch (opt->type) {
 	case CFGT_INT:
 		if (opt->parsecb) {
@@ -988,6 +999,9 @@ DLLIMPORT cfg_value_t *cfg_setopt(cfg_t *cfg, cfg_opt_t *opt, const char *value)
 				return NULL;
 			}
 		}
+		val = cfg_setopt_slot(cfg, opt, value);
+		if (!val)
+			return NULL;
 		val->number = i;
 		break;
 
@@ -1011,6 +1025,9 @@ DLLIMPORT cfg_value_t *cfg_setopt(cfg_t *cfg, cfg_opt_t *opt, const char *value)
 				return NULL;
 			}
 		}
+		val = cfg_setopt_slot(cfg, opt, value);
+		if (!val)
+			return NULL;
 		val->fpnumber = f;
 		break;
 
@@ -1028,6 +1045,9 @@ DLLIMPORT cfg_value_t *cfg_setopt(cfg_t *cfg, cfg_opt_t *opt, const char *value)
 			return NULL;
 		}
 
+		val = cfg_setopt_slot(cfg, opt, value);
+		if (!val)
+			return NULL;
 		free(val->string);
 		val->string = strdup(s);
 		if (!val->string)
@@ -1035,6 +1055,9 @@ DLLIMPORT cfg_value_t *cfg_setopt(cfg_t *cfg, cfg_opt_t *opt, const char *value)
 		break;
 
 	case CFGT_SEC:
+		val = cfg_setopt_slot(cfg, opt, value);
+		if (!val)
+			return NULL;
 		if (is_set(CFGF_MULTI, opt->flags) || val->section == NULL) {
 			if (val->section) {
 				val->section->path = NULL; /* Global search path */
@@ -1097,6 +1120,9 @@ DLLIMPORT cfg_value_t *cfg_setopt(cfg_t *cfg, cfg_opt_t *opt, const char *value)
 				return NULL;
 			}
 		}
+		val = cfg_setopt_slot(cfg, opt, value);
+		if (!val)
+			return NULL;
 		val->boolean = (cfg_bool_t)b;
 		break;
 
@@ -1108,6 +1134,12 @@ DLLIMPORT cfg_value_t *cfg_setopt(cfg_t *cfg, cfg_opt_t *opt, const char *value)
 
 		if ((*opt->parsecb) (cfg, opt, value, &p) != 0)
 			return NULL;
+		val = cfg_setopt_slot(cfg, opt, value);
+		if (!val) {
+			if (p && opt->freecb)
+				opt->freecb(p);
+			return NULL;
+		}
 		if (val->ptr && opt->freecb)
 			opt->freecb(val->ptr);
 		val->ptr = p;
